@@ -124,6 +124,10 @@ def np_ravel(ex, st, args, kw, node):
     return args[0]
 
 
+import itertools as _it
+_put_counter = _it.count()
+
+
 def np_put(ex, st, args, kw, node):
     """np.put(a, ind, v): a[ind] = v for scalar ind (array ind: sequential stores, last wins -- only scalar here)"""
     a, ind, v = args[0], args[1], args[2]
@@ -131,7 +135,28 @@ def np_put(ex, st, args, kw, node):
     if not isinstance(c, ArrC):
         raise Unsupported('np.put target')
     if isinstance(ind, Ref):
-        raise Unsupported('np.put with index array')
+        # index array: sequential stores a[ind[k]] = v[k] (k ascending, the last store to an index wins); v is a scalar or an
+        # array of the same length as ind (numpy would repeat a shorter v cyclically: not modelled)
+        ic = st.content(ind)
+        if not isinstance(ic, ArrC) or c.nans is not None:
+            raise Unsupported('np.put index array')
+        vc = st.content(v) if isinstance(v, Ref) else None
+        if vc is not None and (not isinstance(vc, ArrC) or vc.nans is not None):
+            raise Unsupported('np.put values')
+        if vc is not None:
+            ex.oblige(st, 'np.put:values-and-indices-have-equal-length(cyclic-repetition-not-modelled)', vc.n == ic.n, {})
+        k, k2, j = fresh('k', I), fresh('k2', I), fresh('j', I)
+        if getattr(ex.c, 'check_bounds', True):
+            ex.oblige(st, 'index-in-bounds[np.put]', z3.ForAll([k], z3.Implies(z3.And(k >= 0, k < ic.n), z3.And(z3.ToInt(ic.vals[k]) >= 0, z3.ToInt(ic.vals[k]) < c.n))),
+                      {'kind': 'IndexError'})
+        out = fresh('put', z3.ArraySort(I, R))
+        wit = z3.Function('put_w!%d' % next(_put_counter), I, I)
+        val = (lambda kk: vc.vals[kk]) if vc is not None else (lambda kk, x=as_real(v).val: x)
+        st.assume(z3.ForAll([k], z3.Implies(z3.And(k >= 0, k < ic.n, z3.ForAll([k2], z3.Implies(z3.And(k2 > k, k2 < ic.n), ic.vals[k2] != ic.vals[k]))),
+                                            out[z3.ToInt(ic.vals[k])] == val(k))))
+        st.assume(z3.ForAll([j], z3.Or(out[j] == c.vals[j], z3.And(wit(j) >= 0, wit(j) < ic.n, z3.ToInt(ic.vals[wit(j)]) == j))))
+        st.set_content(a, ArrC(out, c.n, None, kind=c.kind))
+        return None
     x = as_real(v)
     i = to_z3(ind)
     nans = None if (c.nans is None and x.nan is False) else z3.Store(
